@@ -24,7 +24,7 @@ fn value(rng: &mut Rng, lo: i64, hi: i64, scale: f64) -> f64 {
     }
 }
 
-const IDS: &[&str] = &["1ABC", "x", "7xy", "4HHB", "AB", "0XYZ", "00A1"];
+const IDS: &[&str] = &["1ABC", "x", "7xy", "4HHB", "AB", "0XYZ", "00A1", "1E12", "0123", "12"];
 const RES: &[&str] = &["001", "0A1", "00", "A", "DG", "HOH", "MSE"];
 const ATOMS: &[&str] = &["0A", "00", "O5'", "1HB", "C", "N"];
 
